@@ -478,7 +478,7 @@ def c10(run):
     mc_cli(run)
     camp = CliCampaign(run, "table")
     rnd = camp.rnd
-    for text in formulas_for(run, 260 if t else 45, 5):
+    for text in formulas_for(run, 260 if t else 45, 6):
         names = names_of_formula(text)
         ovs = order_variants(names, rnd)
         o1 = rnd.choice(ovs)
@@ -527,7 +527,7 @@ def c11(run):
     camp = CliCampaign(run, "order")
     rnd = camp.rnd
     changed = 0
-    for text in formulas_for(run, 270 if t else 45, 5):
+    for text in formulas_for(run, 270 if t else 45, 6):
         names = names_of_formula(text)
         for o in order_variants(names, rnd):
             camp.add(text, o, api=True, channel=rnd.choice(["evaluate", "file", "stdin"]))
@@ -566,6 +566,15 @@ def c14(run):
     d = fresh_dir(run.prop, "dotcases")
     p = os.path.join(d, "cases.ndjson")
     summary, _ = run_harness(["dot-cases", p, "4" if t else "3", str(1500 if t else 200)])
+    # a sample of the diagrams over four variables in the quick tier as well
+    if not t:
+        p4 = os.path.join(d, "cases4.ndjson")
+        s4, _ = run_harness(["dot-cases", p4, "4", "0"])
+        with open(p, "a") as fh:
+            lines4 = open(p4).read().splitlines()
+            rnd4 = random.Random(seed())
+            for ln in rnd4.sample(lines4, min(len(lines4), 900)):
+                fh.write(ln + "\n")
     run.extra.setdefault("i2s", {})["library"] = summary
     groups = {}
     nontrivial = 0
